@@ -15,7 +15,11 @@ package bitcoin
 //@ assume func Chain.GetTransactionConfirmations
 //@   modifies ghost.txConfirmations
 //@   ensures err == nil ==> ghost.txConfirmations == result0 && result0 >= 1 && result0 <= ghost.btcLatestHeight + 1
+//@ ghost hdrFetches int
+//@ ghost lastHdr ref
 //@ assume func Chain.GetBlockHeader
+//@   modifies ghost.hdrFetches, ghost.lastHdr
+//@   ensures ghost.hdrFetches == old(ghost.hdrFetches) + 1 && ghost.lastHdr == result0
 //@   ensures err == nil ==> result0 == @headerAt(recv, blockHeight) && result0 != nil
 
 // ---------------------------------------------------------------------------
@@ -62,11 +66,13 @@ package bitcoin
 //@   property C31
 //@   arith math
 //@   opt noframe 1
-//@   modifies ghost.bufLen, ghost.bufWrites
+//@   modifies ghost.bufLen, ghost.bufWrites, ghost.hdrFetches, ghost.lastHdr
 //@   ensures [one-header-of-eighty-bytes-per-required-confirmation] err == nil ==> ghost.bufWrites == old(ghost.bufWrites) + chainLength && ghost.bufLen == old(ghost.bufLen) + 80 * chainLength
+//@   ensures [every-header-written-was-asked-from-the-chain-in-this-very-call] err == nil ==> ghost.hdrFetches == old(ghost.hdrFetches) + chainLength
 //@   assert call:Buffer.Write : [a-serialized-header-has-eighty-bytes] len(arg0) == 80
+//@   assert call:BlockHeader.Serialize : [the-header-serialized-is-the-one-the-chain-just-returned-for-this-height] recv == ghost.lastHdr && recv == @headerAt(btcChain, i)
 //@   assert call:Chain.GetBlockHeader : [headers-are-consecutive-from-the-transaction-block] arg0 == i && blockHeight <= i && i < blockHeight + chainLength
-//@   loop 1 invariant i >= blockHeight && i <= blockHeight + chainLength && ghost.bufLen == old(ghost.bufLen) + 80 * (i - blockHeight) && ghost.bufWrites == old(ghost.bufWrites) + (i - blockHeight)
+//@   loop 1 invariant i >= blockHeight && i <= blockHeight + chainLength && ghost.bufLen == old(ghost.bufLen) + 80 * (i - blockHeight) && ghost.bufWrites == old(ghost.bufWrites) + (i - blockHeight) && ghost.hdrFetches == old(ghost.hdrFetches) + (i - blockHeight)
 
 //@ func createMerkleProof
 //@   property C31
@@ -80,7 +86,7 @@ package bitcoin
 //@   property C31
 //@   arith math
 //@   opt noframe 1
-//@   modifies ghost.bufLen, ghost.bufWrites, ghost.btcLatestHeight, ghost.txConfirmations, alloc
+//@   modifies ghost.bufLen, ghost.bufWrites, ghost.btcLatestHeight, ghost.txConfirmations, ghost.hdrFetches, ghost.lastHdr, alloc
 //@   assert call:getHeadersChain : [headers-start-at-the-transaction-block-and-cover-the-required-confirmations] arg1 == txBlockHeight && arg2 == requiredConfirmations && txBlockHeight == latestBlockHeight - confirmations + 1
 //@   assert call:Chain.GetTransactionMerkleProof@1 : [transaction-proof-is-for-the-transaction-block] arg0 == transactionHash && arg1 == txBlockHeight
 //@   assert call:Chain.GetCoinbaseTxHash : [coinbase-of-the-transaction-block] arg0 == txBlockHeight
@@ -102,12 +108,32 @@ package bitcoin
 //@   opt safe slice -index
 //@   modifies tb.sigHashes, alloc
 //@   ensures [one-signature-hash-per-input] err == nil ==> len(result0) == len(tb.internal.TxIn) && tb.sigHashes == result0
+//@   assert call:CalcWitnessSigHash : [witness-input-i-is-hashed-with-its-own-script-code-value-and-index] tb.sigHashArgs[i].witness && arg0 == tb.sigHashArgs[i].scriptCode && arg2 == txscript.SigHashAll && arg3 == tb.internal.MsgTx && arg4 == i && arg5 == tb.sigHashArgs[i].value
+//@   assert call:CalcSignatureHash : [legacy-input-i-is-hashed-with-its-own-script-code-and-index] !tb.sigHashArgs[i].witness && arg0 == tb.sigHashArgs[i].scriptCode && arg1 == txscript.SigHashAll && arg2 == tb.internal.MsgTx && arg3 == i
+
+// btcd's ScriptBuilder.Script() returns the builder's own buffer (no copy) and
+// Reset() reuses that buffer: a script that is stored must be the only script
+// taken from its builder (assumed aliasing contract of the external type,
+// checked at every Script() call of the code under contract).
+//@ ghost sbCurrent ref
+//@ ghost sbScripts int
+//@ assume func github.com/btcsuite/btcd/txscript.NewScriptBuilder
+//@   modifies ghost.sbCurrent, ghost.sbScripts, alloc
+//@   ensures result != nil && ghost.sbCurrent == result && ghost.sbScripts == 0
+//@ assume func github.com/btcsuite/btcd/txscript.ScriptBuilder.AddData
+//@   ensures result == recv
+//@ assume func github.com/btcsuite/btcd/txscript.ScriptBuilder.Reset
+//@   ensures result == recv
+//@ assume func github.com/btcsuite/btcd/txscript.ScriptBuilder.Script
+//@   requires [a-stored-script-is-the-only-script-taken-from-its-own-builder] recv == ghost.sbCurrent && ghost.sbScripts == 0
+//@   modifies ghost.sbScripts
+//@   ensures ghost.sbScripts == old(ghost.sbScripts) + 1
 
 //@ func TransactionBuilder.AddSignatures
 //@   property C27
 //@   opt noframe 1
 //@   opt safe slice -index
-//@   modifies ghost.verifiedOK, alloc
+//@   modifies ghost.verifiedOK, ghost.sbCurrent, ghost.sbScripts, alloc
 //@   ensures [a-transaction-is-produced-only-if-every-input-signature-verified] err == nil ==> ghost.verifiedOK == old(ghost.verifiedOK) + len(signatures) && len(signatures) == len(old(tb.internal.TxIn))
 //@   ensures [nothing-is-produced-on-error] err != nil ==> result0 == nil
 //@   assert call:Verify : [input-i-is-checked-with-its-own-signature-and-hash] arg0 == signatures[i].PublicKey && arg2 == signatures[i].R && arg3 == signatures[i].S
@@ -185,5 +211,66 @@ package bitcoin
 //@   property C27
 //@   opt noframe 1
 //@   opt safe -index
-//@   requires tb != nil && utxo != nil && utxo.Outpoint != nil
+//@   requires tb != nil
 //@   ensures [script-of-the-spent-output] err == nil ==> result0 == @txOf(tb.chain, utxo.Outpoint.TransactionHash).Outputs[int(utxo.Outpoint.OutputIndex)].PublicKeyScript
+
+// ---------------------------------------------------------------------------
+// C26 (builder half of the value ledger): the ledger the tbtc assemblers reason
+// over (ghost.txIn = sum of input values, ghost.txIns = number of inputs) is
+// tied to the real builder: a UTXO that the builder accepts becomes exactly one
+// new transaction input with one matching signature-hash record, and a refused
+// one leaves the transaction untouched.
+//@ ghost txIn int
+//@ ghost txIns int
+//@ ghost txLastIn ref
+//@ spec func isWitnessProg(s []byte) bool
+//@ assume func github.com/btcsuite/btcd/txscript.IsWitnessProgram
+//@   ensures result == @isWitnessProg(arg0)
+//@ assume func github.com/btcsuite/btcd/wire.MsgTx.AddTxIn
+//@   modifies recv.TxIn
+//@   ensures len(recv.TxIn) == old(len(recv.TxIn)) + 1
+//@ func TransactionBuilder.AddPublicKeyHashInput
+//@   property C26
+//@   opt noframe 1
+//@   requires tb != nil
+//@   modifies ghost.txIn, ghost.txIns, ghost.txLastIn, tb.sigHashArgs, tb.internal.MsgTx.TxIn, alloc
+//@   yields ghost.txIn = old(ghost.txIn) + ite(result0 == nil, utxo.Value, 0)
+//@   yields ghost.txIns = old(ghost.txIns) + ite(result0 == nil, 1, 0)
+//@   yields ghost.txLastIn = utxo
+//@   ensures [an-accepted-utxo-becomes-exactly-one-new-input] result == nil ==> len(tb.internal.MsgTx.TxIn) == old(len(tb.internal.MsgTx.TxIn)) + 1 && len(tb.sigHashArgs) == old(len(tb.sigHashArgs)) + 1
+//@   ensures [a-refused-utxo-leaves-the-transaction-untouched] result != nil ==> len(tb.internal.MsgTx.TxIn) == old(len(tb.internal.MsgTx.TxIn)) && len(tb.sigHashArgs) == old(len(tb.sigHashArgs))
+//@   ensures [the-signature-hash-record-carries-the-utxo-value-and-its-locking-script] result == nil ==> tb.sigHashArgs[old(len(tb.sigHashArgs))].value == utxo.Value && tb.sigHashArgs[old(len(tb.sigHashArgs))].scriptCode == @txOf(tb.chain, utxo.Outpoint.TransactionHash).Outputs[int(utxo.Outpoint.OutputIndex)].PublicKeyScript && tb.sigHashArgs[old(len(tb.sigHashArgs))].witness == @isWitnessProg(tb.sigHashArgs[old(len(tb.sigHashArgs))].scriptCode)
+//@   ensures result == nil ==> ghost.txIn == old(ghost.txIn) + utxo.Value && ghost.txIns == old(ghost.txIns) + 1 && ghost.txLastIn == utxo
+//@   ensures result != nil ==> ghost.txIn == old(ghost.txIn) && ghost.txIns == old(ghost.txIns)
+//@ func TransactionBuilder.AddScriptHashInput
+//@   property C26
+//@   opt noframe 1
+//@   requires tb != nil
+//@   modifies ghost.txIn, ghost.txIns, ghost.txLastIn, tb.sigHashArgs, tb.internal.MsgTx.TxIn, alloc
+//@   yields ghost.txIn = old(ghost.txIn) + ite(result0 == nil, utxo.Value, 0)
+//@   yields ghost.txIns = old(ghost.txIns) + ite(result0 == nil, 1, 0)
+//@   yields ghost.txLastIn = utxo
+//@   ensures [an-accepted-utxo-becomes-exactly-one-new-input] result == nil ==> len(tb.internal.MsgTx.TxIn) == old(len(tb.internal.MsgTx.TxIn)) + 1 && len(tb.sigHashArgs) == old(len(tb.sigHashArgs)) + 1
+//@   ensures [a-refused-utxo-leaves-the-transaction-untouched] result != nil ==> len(tb.internal.MsgTx.TxIn) == old(len(tb.internal.MsgTx.TxIn)) && len(tb.sigHashArgs) == old(len(tb.sigHashArgs))
+//@   ensures [the-signature-hash-record-carries-the-utxo-value-and-the-redeem-script] result == nil ==> tb.sigHashArgs[old(len(tb.sigHashArgs))].value == utxo.Value && tb.sigHashArgs[old(len(tb.sigHashArgs))].scriptCode == redeemScript && tb.sigHashArgs[old(len(tb.sigHashArgs))].witness == @isWitnessProg(@txOf(tb.chain, utxo.Outpoint.TransactionHash).Outputs[int(utxo.Outpoint.OutputIndex)].PublicKeyScript)
+//@   ensures result == nil ==> ghost.txIn == old(ghost.txIn) + utxo.Value && ghost.txIns == old(ghost.txIns) + 1 && ghost.txLastIn == utxo
+//@   ensures result != nil ==> ghost.txIn == old(ghost.txIn) && ghost.txIns == old(ghost.txIns)
+//@ ghost txOut int
+//@ ghost txOuts int
+//@ ghost txLastOut ref
+//@ assume func github.com/btcsuite/btcd/wire.NewTxOut
+//@   modifies alloc
+//@   ensures result != nil && result.Value == arg0 && result.PkScript == arg1
+//@ assume func github.com/btcsuite/btcd/wire.MsgTx.AddTxOut
+//@   modifies recv.TxOut
+//@   ensures len(recv.TxOut) == old(len(recv.TxOut)) + 1 && recv.TxOut[old(len(recv.TxOut))] == arg0
+//@ func TransactionBuilder.AddOutput
+//@   property C26
+//@   opt noframe 1
+//@   requires tb != nil
+//@   modifies ghost.txOut, ghost.txOuts, ghost.txLastOut, tb.internal.MsgTx.TxOut, alloc
+//@   yields ghost.txOut = old(ghost.txOut) + output.Value
+//@   yields ghost.txOuts = old(ghost.txOuts) + 1
+//@   yields ghost.txLastOut = output
+//@   ensures [the-output-is-appended-with-its-own-value-and-script] len(tb.internal.MsgTx.TxOut) == old(len(tb.internal.MsgTx.TxOut)) + 1 && tb.internal.MsgTx.TxOut[old(len(tb.internal.MsgTx.TxOut))].Value == output.Value && tb.internal.MsgTx.TxOut[old(len(tb.internal.MsgTx.TxOut))].PkScript == output.PublicKeyScript
+//@   ensures ghost.txOut == old(ghost.txOut) + output.Value && ghost.txOuts == old(ghost.txOuts) + 1 && ghost.txLastOut == output
